@@ -196,4 +196,8 @@ def tasks(tier):
             out.append(task(MOD, 'run', P, label=f'array/string-lookup/w{w}/u{int(unchecked)}', cost=8, family='string-lookup', el='-', w=w, unchecked=unchecked, tier=tier))
             if not unchecked or tier == 'thorough':
                 out.append(task(MOD, 'run', P, label=f'array/length/w{w}/u{int(unchecked)}', cost=8, family='length', el='-', w=w, unchecked=unchecked, tier=tier))
+    if tier == 'quick':
+        # a word size that is not a power of two: everything that scales by the word size (element offsets, string headers, slots)
+        for fam, el in (('lookup', 'int'), ('assign', 'int'), ('string-lookup', '-'), ('length', '-')):
+            out.append(task(MOD, 'run', P, label=f'array/{fam}/{el}/w3/u0', cost=15, family=fam, el=el, w=3, unchecked=False, tier=tier))
     return out
